@@ -6,32 +6,33 @@
 #  2. applies seeded/<ID>/patch.diff to a fresh scratch worktree of /repo's current HEAD (under /tmp, removed afterwards)
 #     and runs the check(s) against it (VERIF_REPO), recording exit codes and mechanisms in seeded/<ID>/meta.json
 ID=$1; shift
-W=/tmp/seed-$ID
 V=/verif
-mkdir -p $V/seeded/$ID
+# SEED_ROUND=2 tools/seed_verify.sh C01  -> worktree /tmp/seed2-C01, stored under seeded/C01-r2
+if [ -n "$SEED_ROUND" ] && [ "$SEED_ROUND" != "1" ]; then W=/tmp/seed$SEED_ROUND-$ID; D=$ID-r$SEED_ROUND; else W=/tmp/seed-$ID; D=$ID; fi
+mkdir -p $V/seeded/$D
 conf=""
 if [ -d $W ]; then
   cd $W || exit 2
-  git diff > $V/seeded/$ID/patch.diff
-  cp demo.py $V/seeded/$ID/demo.py 2>/dev/null
-  cp SEED_NOTES.md $V/seeded/$ID/SEED_NOTES.md 2>/dev/null
+  git diff > $V/seeded/$D/patch.diff
+  cp demo.py $V/seeded/$D/demo.py 2>/dev/null
+  cp SEED_NOTES.md $V/seeded/$D/SEED_NOTES.md 2>/dev/null
   suite=$(PYTHONPATH=$W /venv/bin/python -m pytest -q -p no:cacheprovider tests 2>&1 | grep -E "passed|failed" | tail -1)
   PYTHONPATH=$W /venv/bin/python -W ignore demo.py > /tmp/demo-$ID-with.log 2>&1; with=$?
   # (no `git stash`: the stash is shared by all worktrees of a repository)
-  git apply -R $V/seeded/$ID/patch.diff
+  git apply -R $V/seeded/$D/patch.diff
   PYTHONPATH=$W /venv/bin/python -W ignore demo.py > /tmp/demo-$ID-without.log 2>&1; without=$?
-  git apply $V/seeded/$ID/patch.diff
+  git apply $V/seeded/$D/patch.diff
   echo "suite_with_change: $suite | demo with change exit=$with | demo without change exit=$without"
   conf="{\"suite_with_change\":\"$suite\",\"demo_exit_with_change\":$with,\"demo_exit_without_change\":$without}"
 fi
-R=/tmp/seedrun-$ID
+R=/tmp/seedrun-$D
 rm -rf $R; git -C /repo worktree prune
 git -C /repo worktree add -q --detach $R HEAD || exit 2
-if ! git -C $R apply $V/seeded/$ID/patch.diff; then echo "patch does not apply to current HEAD"; applied=false; else applied=true; fi
+if ! git -C $R apply $V/seeded/$D/patch.diff; then echo "patch does not apply to current HEAD"; applied=false; else applied=true; fi
 cd $V
 res=""
 if $applied; then
-  PYTHONPATH=$R /venv/bin/python -W ignore $V/seeded/$ID/demo.py > /tmp/demo-$ID-head.log 2>&1; dh=$?
+  PYTHONPATH=$R /venv/bin/python -W ignore $V/seeded/$D/demo.py > /tmp/demo-$ID-head.log 2>&1; dh=$?
   echo "demo on current HEAD + patch: exit=$dh"
   for c in $ID "$@"; do
     out=$(VERIF_REPO=$R ./check $c quick 2>&1); rc=$?
@@ -41,10 +42,10 @@ if $applied; then
   done
 fi
 git -C /repo worktree remove --force $R
-/venv/bin/python - "$ID" "$conf" "[${res%,}]" "${dh:-null}" <<'PY'
+/venv/bin/python - "$ID" "$conf" "[${res%,}]" "${dh:-null}" "$D" <<'PY'
 import json, sys, os, subprocess
-ID, conf, res, dh = sys.argv[1:5]
-meta_path = f'/verif/seeded/{ID}/meta.json'
+ID, conf, res, dh, D = sys.argv[1:6]
+meta_path = f'/verif/seeded/{D}/meta.json'
 meta = json.load(open(meta_path)) if os.path.exists(meta_path) else {}
 meta.update({'property': ID, 'source': 'sub-agent given only the property text and its own scratch worktree of /repo'})
 if conf:
